@@ -489,10 +489,11 @@ func (fx *fnExec) callSiteHooks(callee *ssa.Function, args []Val, st *State, pos
 		t := env.evalBool(a.Cond)
 		fx.oblige(fmt.Sprintf("assertcall.%s.%d#%d", a.Callee, i+1, fx.callCount[fmt.Sprintf("assert:%d:%s", i, a.Callee)]), "assertcall", st, t, pos, a.Cond.Src)
 	}
-	for _, g := range fx.c.Ghost {
+	for gi, g := range fx.c.Ghost {
 		if !match(g.Callee) || g.After {
 			continue
 		}
+		noteGhostFired(fx.c, gi)
 		env := fx.specEnv(st, fx.entry, nil)
 		for j, p := range callee.Params {
 			if j < len(args) {
@@ -530,7 +531,6 @@ func (fx *fnExec) invoke(recv Val, m *types.Func, args []Val, st *State, pos tok
 			}
 		}
 	}
-	fx.invokeHooks(m, recv, args, st, pos)
 	// contract on the interface method?
 	iname := typeName(it) + "." + m.Name()
 	if named, ok := it.(*types.Named); ok && named.Obj().Pkg() != nil {
@@ -539,6 +539,7 @@ func (fx *fnExec) invoke(recv Val, m *types.Func, args []Val, st *State, pos tok
 			if scs := ex.L.PkgContracts[currentUnitPkg+"|"+named.Obj().Pkg().Path()]; scs != nil {
 				if c, ok := scs.ByKey["("+named.Obj().Name()+")."+m.Name()]; ok {
 					ex.TrustedUsed["interface contract:"+iname] = true
+					fx.invokeHooks(m, recv, args, st, pos)
 					return fx.applyIfaceContract(c, m, append([]Val{recv}, args...), st, pos, rt)
 				}
 			}
@@ -547,6 +548,7 @@ func (fx *fnExec) invoke(recv Val, m *types.Func, args []Val, st *State, pos tok
 		if cs != nil {
 			if c, ok := cs.ByKey["("+named.Obj().Name()+")."+m.Name()]; ok {
 				ex.TrustedUsed["interface contract:"+iname] = true
+				fx.invokeHooks(m, recv, args, st, pos)
 				return fx.applyIfaceContract(c, m, append([]Val{recv}, args...), st, pos, rt)
 			}
 		}
@@ -560,6 +562,7 @@ func (fx *fnExec) invoke(recv Val, m *types.Func, args []Val, st *State, pos tok
 		}
 	}
 	fx.nopanic("nil", st, Neq(recv.C[0], IntC(0)), pos)
+	fx.invokeHooks(m, recv, args, st, pos) // (dispatched and devirtualised calls run the static hooks instead)
 	if ex.HavocCallsC != nil {
 		return fx.havocCall("interface method "+iname, nil, st, rt)
 	}
